@@ -125,6 +125,13 @@ def levelOk (p : PInput) : PConstraint → Bool
   | .sequential i _ => !(factorAt p i).complex
   | _ => true
 
+/-- every level a crossing combination names exists and its factor has a level in every crossing trial -/
+def crossOk (p : PInput) : Bool :=
+  p.crossings.all (fun c => (List.range c.combos.length).all (fun ci =>
+    (c.factors.zip (c.combos.getD ci [])).all (fun fl =>
+      decide (fl.2 < (factorAt p fl.1).nlevels) &&
+      (List.range (trials p + 1)).all (fun t => !(decide (c.preamble < t)) || appliesTrial (factorAt p fl.1) t))))
+
 /-- what reading the compiled formula at the level of sequences needs beyond `inputOk`: derivations mention design
     variables only, named levels exist, and `Consistency` is among the constraints -/
 def seqOk (p : PInput) : Bool :=
